@@ -16,8 +16,8 @@ package httpcache
 // with Cache.Set's precondition ttl > 0 a response whose lifetime is over is not stored.
 //@   ensures cset.n <= old(cset.n) + 1
 //@   ensures cset.n > old(cset.n) ==> ccr.n == old(ccr.n) + 1 && ccr.ret2[old(ccr.n)] == nil && len(ccr.ret0[old(ccr.n)]) == 0
-//@   assert at call Set#1: ccr.n == old(ccr.n) + 1 && (unixnano(ccr.ret1[old(ccr.n)]) != zeroTimeNano() ==> callarg4 <= unixnano(ccr.ret1[old(ccr.n)]) - old(clock))
-//@   assert at call Set#1: unixnano(ccr.ret1[old(ccr.n)]) == zeroTimeNano() ==> old(rt.DefaultCacheTTL) != 0 && callarg4 <= old(rt.DefaultCacheTTL)
+//@   assert at call Set#1@27c5f17a.1: ccr.n == old(ccr.n) + 1 && (unixnano(ccr.ret1[old(ccr.n)]) != zeroTimeNano() ==> callarg4 <= unixnano(ccr.ret1[old(ccr.n)]) - old(clock))
+//@   assert at call Set#1@27c5f17a.1: unixnano(ccr.ret1[old(ccr.n)]) == zeroTimeNano() ==> old(rt.DefaultCacheTTL) != 0 && callarg4 <= old(rt.DefaultCacheTTL)
 
 // C11: "a result is served from cache only for a request for which a fresh evaluation (... rendered
 // payload ..., presented credential) would yield the same result". The key of the HTTP cache covers
